@@ -672,7 +672,7 @@ func (a *adversary) planPropose(n *node, m *bft.Message) bool {
 	}
 	// bait variant: attach the certificate some correct replica is locked on as HighQc although the
 	// proposal carries a DIFFERENT block (the justification does not match the proposal)
-	if c.T.Chance(1, 2) {
+	if c.T.Chance(3, 4) {
 		for _, hn := range w.honest() {
 			if hq := hn.bft.HighQC; hq != nil && hn.chainHeight() == m.Header.Height && hq.Signature != nil {
 				alt.HighQc = &lib.QuorumCertificate{Header: hq.Header, Block: hq.Block, BlockHash: hq.BlockHash, Results: hq.Results, ResultsHash: hq.ResultsHash,
